@@ -206,6 +206,9 @@ class Interp:
             if pl and hasattr(pl[0], 'construct'):
                 pl[0].construct(iv)
                 return pl[0]
+            if pl and hasattr(pl[0], 'deref') and hasattr(pl[0].deref(), 'construct'):
+                pl[0].deref().construct(iv)
+                return pl[0]
             raise Unsupported('new-expression %s' % show(e)[:50])
         if k == 'this':
             if '__this__' in env:
@@ -288,6 +291,17 @@ class Interp:
                 new = wrap(old + (1 if op == '++' else -1), e.get('t') or strip(e['e']).get('t'))
                 self.store(e['e'], new, env, members)
                 return old if e.get('post') else new
+            if op == '&':
+                inner0 = strip(e['e'])
+                while inner0 is not None and inner0.get('k') == 'paren':
+                    inner0 = strip(inner0.get('e'))
+                if inner0 is not None and inner0.get('k') == 'sub':
+                    try:
+                        pb = self.ev(inner0['base'], env, members)
+                    except Unsupported:
+                        pb = None
+                    if pb is not None and not isinstance(pb, int) and hasattr(pb, 'deref'):
+                        return pb + self.ev(inner0['idx'], env, members)      # &p[i] == p + i for a model pointer
             if op == '&' and self.memory is not None:
                 inner = strip(e['e'])
                 if inner is not None and inner.get('k') == 'sub':
